@@ -1415,6 +1415,12 @@ class Interp:
             return frozenset([n])
         if short == "defaultdict":
             return frozenset([self.alloc(fr, node, "defaultdict")])
+        if short in ("WeakKeyDictionary", "WeakValueDictionary", "ChainMap") and not args:
+            return frozenset([self.alloc(fr, node, "dict")])  # (a mapping kept by the library: stores into it are stores into a container)
+        if short in ("WeakSet",) and not args:
+            return frozenset([self.alloc(fr, node, "set")])
+        if short == "deque" and not args:
+            return frozenset([self.alloc(fr, node, "list")])
         if name == "builtins.enumerate":
             t = self.alloc(fr, node, "tuple")
             self.hadd(t, ("k", 0), self.der(("enum-index", self.site(fr, node, "i"), fr.ctx), EMPTY))
